@@ -10,7 +10,7 @@ EXPLANATION = (
     "Static decision of structural clauses of C11: (1) RLE/bit-packed hybrid encoder typestate: the "
     "store that pads a partial literal group with values the caller never supplied is reachable only "
     "when the group is known full/empty, or as the last emission of carquet_rle_encoder_flush; (2) "
-    "size agreement of the count-driven codecs by cursor-skeleton execution: for every count 0..40 "
+    "size agreement of the count-driven codecs by cursor-skeleton execution: for every count 0..40 (0..130 in the thorough tier) "
     "PLAIN encoders (all fixed-width types, BOOLEAN, FIXED_LEN) append exactly the bytes their "
     "decoder consumes, read exactly their input values, the decoders report that consumed size, write "
     "exactly count values, refuse inputs one byte short without reading past them; "
@@ -193,7 +193,7 @@ def _plain(ctx):
         dec = P.fn("carquet_decode_plain_" + ty, PL)
         bad = []
         runs = 0
-        for n in range(0, 41):
+        for n in range(0, ctx.depth(40, 130) + 1):
             want = need(n)
             # ---- encoder
             appended = []
@@ -256,8 +256,8 @@ def _plain(ctx):
                         if len(wcov) != n * (1 if ty == "boolean" else esz):
                             bad.append("decode count=%d writes %d of %d output bytes" % (n, len(wcov), n * (1 if ty == "boolean" else esz)))
         ctx.ob("R4.skeleton", "plain-sizes|%s:%s" % (PL, ty), P.where(enc.body),
-               "PLAIN %s: for counts 0..40 the encoder appends exactly what the decoder consumes and reports, "
-               "with exact input/output extents, and a short input is refused" % ty, not bad, "; ".join(bad[:3]))
+               "PLAIN %s: for counts 0..%d the encoder appends exactly what the decoder consumes and reports, "
+               "with exact input/output extents, and a short input is refused" % (ty, ctx.depth(40, 130)), not bad, "; ".join(bad[:3]))
         ctx.count("plain_%s_runs" % ty, runs)
 
 
@@ -267,7 +267,7 @@ def _bss(ctx):
         enc = P.fn("carquet_byte_stream_split_encode_" + ty, BSS)
         dec = P.fn("carquet_byte_stream_split_decode_" + ty, BSS)
         bad = []
-        for n in range(0, 21):
+        for n in range(0, ctx.depth(20, 70) + 1):
             need = n * w
             for cap, short in ((need, False), (need - 1, True)):
                 if cap < 0:
@@ -303,14 +303,14 @@ def _bss(ctx):
                     if not short and ret != 0:
                         bad.append("decode %s count=%d refuses exact input" % (ty, n))
         ctx.ob("R4.skeleton", "bss-sizes|%s:%s" % (BSS, ty), P.where(enc.body),
-               "BYTE_STREAM_SPLIT %s: encode and decode require exactly count*%d bytes for counts 0..20" % (ty, w),
+               "BYTE_STREAM_SPLIT %s: encode and decode require exactly count*%d bytes for counts 0..%d" % (ty, w, ctx.depth(20, 70)),
                not bad, "; ".join(bad[:3]))
     # generic width
     enc = P.fn("carquet_byte_stream_split_encode", BSS)
     dec = P.fn("carquet_byte_stream_split_decode", BSS)
     bad = []
     for tl in (1, 3, 16):
-        for n in range(0, 12):
+        for n in range(0, ctx.depth(11, 40) + 1):
             need = n * tl
             it = Interp(P, dec, budget=400000, max_forks=2000)
             try:
